@@ -493,7 +493,7 @@ fn sample_of(scn: &Scenario) -> serde_json::Value {
 fn rule_text(check: &str) -> String {
     let common = "Each case is one simulated run: configuration, key universe, value sizes, operation sequence, fault kinds and scheduler strategy are all drawn from VERIF_SEED (run i uses seed mix(VERIF_SEED, check, i)); 'evaluations' counts the cases judged by the oracle. ";
     let specific = match check {
-        "C01" | "C02" | "C05" | "C12" | "C13" | "C14" | "C19" => "A run is non-trivial if at least one reach condition fired in it (a second data file was created, a merge ran, a reopen happened, a hint file existed at close, the accounting was compared). Distinct = distinct coverage signature: hash of (operation-kind sequence with value-size class, max_file_size, cache, pool).",
+        "C01" | "C02" | "C05" | "C12" | "C13" | "C14" | "C19" => "A run is non-trivial if at least one reach condition fired in it (a second data file was created, a merge ran, a reopen happened, a hint file existed at close, the accounting was compared). Distinct = distinct coverage signature: hash of (operation-kind sequence with value-size class, max_file_size, cache, pool); a quarter of C19's runs are concurrent histories (writer, reader and merging threads) whose signature is the schedule hash.",
         "C03" | "C09" => "One evaluation = one crash (C09: power-loss) image recovered with the real open and judged. A run is non-trivial if it produced more than one image. Distinct = distinct coverage signature of an image: hash of (kind of the I/O record the image was cut after, data or hint file, kind of the enclosing operation, whether an operation was in flight, number of data files (capped at 5), number of hint files (capped at 3), an empty data file present, bytes lost / tail torn (C09), image variant).",
         "C20" => "One evaluation = one re-run of a workload with exactly one file-system call failed. Non-trivial if the fault fired. Distinct = distinct coverage signature: hash of (kind of the failed call, kind of the enclosing operation incl. two-write entries, data or hint file, errno, clean failure or short-write-then-error).",
         "C04" | "C11" | "C10" | "C15" | "C16" | "C17" => "Distinct = distinct schedule: hash of the sequence of scheduler decisions (step, chosen thread) and task/waiter picks of the run. Non-trivial if the run had real interleaving (more context switches than threads; for the network checks: a command ran inside the store / clients were served).",
@@ -508,7 +508,7 @@ fn rule_text(check: &str) -> String {
 fn expected_probes(check: &str) -> Vec<&'static str> {
     match check {
         "C01" => vec!["merge_selected_all_nonempty", "merge_selected_strict_subset", "merge_selected_none", "merge_output_rolled_over"],
-        "C02" => vec!["reopen", "reopen_without_writes"],
+        "C02" => vec!["reopen", "reopen_without_writes", "timer_merge_ran"],
         "C05" => vec!["merge_selected_strict_subset", "merge_output_rolled_over", "reopen"],
         "C12" => vec!["several_hint_files", "hint_file_with_many_entries", "hint_file_with_dead_entries", "empty_hint_file"],
         "C13" => vec!["merge_selected_all_nonempty", "merge_with_nothing_live", "merge_selected_none"],
@@ -523,8 +523,8 @@ fn expected_probes(check: &str) -> Vec<&'static str> {
         "C15" => vec!["handler_panic_injected", "store_error_injected", "limit_reached", "task_panic_contained"],
         "C16" => vec!["request_unanswered_at_shutdown", "select_entered"],
         "C17" => vec!["stale_handle_rejected", "reopen_at_once", "reopen_while_old_worker_alive", "drop_while_worker_in_blocking_call", "drop_while_worker_sleeping", "client_op_rejected_as_closed"],
-        "C18" => vec!["trigger_by_dead_bytes_only_just_crossed", "trigger_by_fragmentation_only_just_crossed", "dead_bytes_exactly_at_trigger", "fragmentation_exactly_at_trigger", "policy_never", "interval_sync", "jitter_extreme"],
-        "C19" => vec!["reopen", "merge_selected_all_nonempty"],
+        "C18" => vec!["trigger_by_dead_bytes_only_just_crossed", "trigger_by_fragmentation_only_just_crossed", "dead_bytes_exactly_at_trigger", "fragmentation_exactly_at_trigger", "policy_never", "interval_sync", "jitter_extreme", "sync_under_writers_compared", "sync_tick_waited_for_writer_or_disk"],
+        "C19" => vec!["reopen", "merge_selected_all_nonempty", "accounting_compared_after_concurrent_history"],
         "C20" => vec!["fault_during_merge", "fault_during_multi_write_entry", "fault_during_open", "fault_in_background_task", "fault_reported_as_error"],
         _ => vec![],
     }
